@@ -25,7 +25,7 @@ RULE = ("real definite-parity polynomials of degree 1..30 (quick) / 1..60 (thoro
         "0.1..0.9), tight (sup close to 1), infeasible (sup > 1), tiny-leading-coefficient; settings (eps, suc, tol) from a grid "
         "including eps/tol >= 1e4 and (1-suc)/tol >= 1e4; Wx and Wz; random root choice fixed by a numpy.random.randint stub "
         "(all 2^k vectors for k <= 4, sampled above) plus unstubbed runs under numpy.random.seed; ~12% of the calls with the "
-        "decomposition output perturbed by 1e3..1e5 tol; distinct by canonical JSON; non-trivial = degree >= 2")
+        "decomposition output perturbed by 1e3..1e5 tol or by 0.1..0.3 eps; 30 % of the feasible targets also negated; distinct by canonical JSON; non-trivial = degree >= 2")
 TRUSTED = ["Coq 8.16.1 kernel incl. vm_compute", "extraction (ExtrOcamlBasic, ExtrOcamlZBigInt) + driver.ml + zarith, cross-checked in Coq on a slice",
            "harness (impl_runner.py, impl_handlers2.py, Fraction arithmetic)", "numpy/scipy as executors of the implementation"]
 ASSUME = ["the response is the defining matrix product of Theory/RespT.v (Wx: X-rotation signal, Z phases; x basis = |+>)",
@@ -92,9 +92,13 @@ def run(ctx):
                     pert = None
                     if rng.random() < 0.12:
                         pert = setting[2] * 10 ** rng.choice([3, 4, 5])
+                    elif rng.random() < 0.06 and setting[0] >= 300 * setting[2]:
+                        pert = setting[0] * rng.choice([0.1, 0.3])        # sized by eps: a self-check loosened by the eps budget would let it through
                     cases.append(mk_case(rng, p, fam, setting, so, bits, pert))
                     if rng.random() < 0.2:       # the same request with the coefficients in another container
                         cases[-1]["container"] = rng.choice(["floatlist", "polynomial"])
+                    if pert is None and fam in ("good", "tight") and rng.random() < 0.3:
+                        cases.append(mk_case(rng, [-x for x in p], fam, setting, so, bits, None))      # the negated target (phases move by pi)
                 cases.append(mk_case(rng, p, fam, setting, "Wz" if so == "Wx" else "Wx", None, None, npseed=rng.randrange(2 ** 31)))
         # marginally infeasible targets: sup |suc (p + eps/2 x^d)| just above 1, by less than a factor 1/suc^2 (a retry that rescales
         # again would slip through), and infeasible degree-1 targets (closed-form shortcuts)
